@@ -13,16 +13,18 @@ open SST SST.FS SST.DBM SST.Proofs.FS
 
 /-- MAIN THEOREM — crash points × programs × configurations: for EVERY list of steps (client calls of both API
 flavours, valid and rejected; forced and size-triggered rotations; flush completions; compaction cycles with any
-table sizes; close; re-open with any options), and EVERY number `n` of completed file-system calls:
-the directory image after the first `n` calls is a well-formed disk, `Open` succeeds on it, and the opened database
-holds exactly the reference map after all acknowledged steps (those whose calls are all among the first `n`), or
-after those plus the single step in flight.  (`n` beyond the end of the session = the image after the session.) -/
-theorem crash_safe_sync (steps : List Step) (n : Nat) (o : Opts) :
-    let evs := sessionFrom false {} {} (sync steps)
+table sizes; close; re-open with any options; each step with ANY list `junk` of contents its unfinished tables
+are seen to load as before their metadata is written — `drain`/`torn` are ignored by the synchronous WAL), and
+EVERY number `n` of completed file-system calls: the directory image after the first `n` calls is a well-formed
+disk, `Open` succeeds on it, and the opened database holds exactly the reference map after all acknowledged steps
+(those whose calls are all among the first `n`), or after those plus the single step in flight.
+(`n` beyond the end of the session = the image after the session.) -/
+theorem crash_safe_sync (steps : List AStep) (n : Nat) (o : Opts) :
+    let evs := sessionFrom false {} {} steps
     let d := applyEvs {} (evs.flatten.take n)
     let a := ackedCount evs n
     DiskOk d ∧ ∃ d' s, recover d o = .ok (d', s) ∧
-      (abs s = (specFold {} (steps.take a)).m ∨ abs s = (specFold {} (steps.take (a + 1))).m) := by
+      (abs s = (specFold {} ((steps.take a).map (·.st))).m ∨ abs s = (specFold {} ((steps.take (a + 1)).map (·.st))).m) := by
   intro evs d a
   obtain ⟨h1, h2⟩ := sync_run steps {} {} {} QS_init Proofs.DB.rel_init n
   obtain ⟨d', s, hr⟩ := recover_ok d h1 o
@@ -34,13 +36,14 @@ theorem crash_safe_sync (steps : List Step) (n : Nat) (o : Opts) :
 an image left by an interrupted recovery): after `Open` the session may continue with any steps and be killed
 again anywhere.  The reference starts from the content `logical d0` the first `Open` recovered. -/
 theorem crash_safe_sync_after_recovery (d0 : Disk) (h0 : DiskOk d0) (o0 : Opts) (d1 : Disk) (s1 : State)
-    (hr0 : recover d0 o0 = .ok (d1, s1)) (steps : List Step) (n : Nat) (o : Opts) :
-    let evs := sessionFrom false d1 (openedVol s1) (sync steps)
+    (hr0 : recover d0 o0 = .ok (d1, s1)) (steps : List AStep) (n : Nat) (o : Opts) :
+    let evs := sessionFrom false d1 (openedVol s1) steps
     let d := applyEvs d1 (evs.flatten.take n)
     let a := ackedCount evs n
     let sp0 : Spec := { m := logical d0, isOpen := true, closed := false }
     DiskOk d ∧ ∃ d' s, recover d o = .ok (d', s) ∧
-      (abs s = (specFold sp0 (steps.take a)).m ∨ abs s = (specFold sp0 (steps.take (a + 1))).m) := by
+      (abs s = (specFold sp0 ((steps.take a).map (·.st))).m ∨
+        abs s = (specFold sp0 ((steps.take (a + 1)).map (·.st))).m) := by
   intro evs d a sp0
   have hq := recover_QW d0 h0 o0 d1 s1 hr0
   have hflags : s1.isOpen = true ∧ s1.closed = false := by
@@ -74,10 +77,20 @@ theorem rejected_call_no_disk_effect (async : Bool) (d : Disk) (v : Vol) (a : AS
 
 /-! ### non-vacuity and sanity -/
 
-/-- a session with rotations, flushes, a delete, a compaction and a close: event counts per step -/
-example : (sessionFrom false {} {} (sync [.reopen {threshold := 0, maxSize := 100}, .putS [1] [9] false,
-      .putS [2] [8] true, .flush, .delS [1], .rotate, .flush, .compact [10, 10], .putS [3] [3] false, .close])).map
-      (·.length) = [5, 2, 5, 4, 2, 3, 4, 12, 2, 8] := by decide
+/-- a session with rotations, flushes (the first one seen to load as an empty and as a garbage table before its
+metadata is written), a delete, a compaction and a close: event counts per step -/
+example : (sessionFrom false {} {} [{ st := .reopen {threshold := 0, maxSize := 100} }, { st := .putS [1] [9] false },
+      { st := .putS [2] [8] true }, { st := .flush, junk := [[], [([1], some [7, 7]), ([5], some [5])]] },
+      { st := .delS [1] }, { st := .rotate }, { st := .flush }, { st := .compact [10, 10] }, { st := .putS [3] [3] false },
+      { st := .close }]).map (·.length) = [5, 2, 5, 6, 2, 3, 4, 12, 2, 8] := by decide
+
+/-- a crash image inside that first flush: the unfinished table loads (as garbage) and its WAL file is still there —
+well-formed, and the garbage is invisible -/
+def dJunk : Disk :=
+  { tables := [(1, .complete [([1], some [7, 7])])], walDir := true,
+    wal := [{ num := 0, recs := [.put [1] [9], .put [2] [8]] }, { num := 1 }] }
+
+example : DiskOk dJunk ∧ logical dJunk [1] = some [9] ∧ logical dJunk [2] = some [8] := by decide
 
 /-- a disk with an unfinished newest table and the WAL file that still holds its records (crash inside a flush),
 a header-less newest WAL file (crash inside the rotation) — well-formed, recovers, and serves the logged value -/
